@@ -335,8 +335,9 @@ def bounded_c19(tier, seed):
         ff, yy = f[m], y[m]
         return float(np.sqrt(np.sum((yy[:-1] ** 2 + yy[1:] ** 2) / 2 * np.diff(ff)))) if len(ff) >= 2 else 0.0
 
-    for trial in range(6 if tier == "quick" else 40):
-        N = int(rng.integers(8, 300))
+    sizes = [int(rng.integers(8, 300)) for _ in range(6 if tier == "quick" else 40)] + ([1000, 4096, 20000] if tier == "quick" else [1000, 4096, 20000, 100000])
+    for N in sizes:
+        # (long series / high orders included: the statement is for every series length)
         x = rng.normal(size=N) + rng.normal() * np.arange(N) ** 2 / N
         t = np.arange(N, dtype=float)
         for p in range(0, 6):
